@@ -702,8 +702,18 @@ fn validate_extension_name(
     }
 }
 
+/// The largest `tupleSize` and `numberOfTuples` that the layout extensions allow
+const MAX_TUPLE_CONFIG: usize = 32;
+
 fn validate_tuple_config(tuple_size: usize, number_of_tuples: usize) -> Result<()> {
-    if (tuple_size == 0 || number_of_tuples == 0) && (tuple_size != 0 || number_of_tuples != 0) {
+    if tuple_size > MAX_TUPLE_CONFIG || number_of_tuples > MAX_TUPLE_CONFIG {
+        Err(RocflError::InvalidConfiguration(format!(
+            "tupleSize (={}) and numberOfTuples (={}) must not be greater than {}.",
+            tuple_size, number_of_tuples, MAX_TUPLE_CONFIG
+        )))
+    } else if (tuple_size == 0 || number_of_tuples == 0)
+        && (tuple_size != 0 || number_of_tuples != 0)
+    {
         Err(RocflError::InvalidConfiguration(format!(
             "If tupleSize (={}) or numberOfTuples (={}) is set to 0, then both must be 0.",
             tuple_size, number_of_tuples
